@@ -158,6 +158,13 @@ def _apply(head, form, op, versioning, markings):
                 kw["custom_properties"] = {"modified": mval}
             else:
                 kw["modified"] = mval
+        elif kind == "new_version" and via_cp and kw:
+            # ordinary (specification-defined) changes handed over through the constructor's custom_properties= keyword: honoured like plain
+            # keywords (removals stay plain keywords: None)
+            cp = {k: v for k, v in kw.items() if v is not None}
+            kw = {k: v for k, v in kw.items() if v is None}
+            if cp:
+                kw["custom_properties"] = cp
         elif kind == "new_version" and op.get("modified_none"):
             kw["modified"] = None        # "no modified time given", spelled out: the library's clock decides, as when the keyword is absent
         elif kind == "unmodifiable":
@@ -611,6 +618,8 @@ def an_op(draw, typ, version, form, subject):
         op["changes"] = changes()
         if draw(st.integers(0, 11)) == 0:
             op["modified_none"] = True
+        elif draw(st.integers(0, 5)) == 0:
+            op["via"] = "custom_properties"
     elif kind == "set_modified":
         op["delta"] = draw(clock_delta)
         op["changes"] = changes(0)
